@@ -12,8 +12,19 @@ for n in names:
     d = os.path.join(ROOT, "seeded", n)
     pid = n.split("-")[0]
     ids = [pid] + EXTRA.get(n, [])
+    env = dict(os.environ, MC_OUT=os.path.join("/tmp/mc_replays", n))
     out = subprocess.run([os.path.join(ROOT, "py", "mutcheck.sh"), os.path.join(d, "patch.diff")] + ids,
-                         stdout=subprocess.PIPE, stderr=subprocess.STDOUT, text=True).stdout
+                         stdout=subprocess.PIPE, stderr=subprocess.STDOUT, text=True, env=env).stdout
+    # keep the shrunk failing history of the seed's own property as a corpus entry (runs first on every check)
+    rp = os.path.join("/tmp/mc_replays", n, "patch__%s-1-0.json" % pid)
+    if os.path.exists(rp):
+        b = json.load(open(rp))
+        line = b.get("shrunk_history_line") or (b.get("shrunk_divergence") or {}).get("line")
+        comp = b.get("component") or ((b.get("divergences") or [{}])[0].get("component"))
+        if line and comp and len(line) < 20000:
+            cd = os.path.join(ROOT, "corpus", comp)
+            os.makedirs(cd, exist_ok=True)
+            open(os.path.join(cd, "%s.trace" % n), "w").write(line.strip() + "\n")
     res = {}
     cur = None
     for line in out.split("\n"):
